@@ -1003,6 +1003,12 @@ class Engine:
                     process_delay = process_time - self.global_time
                     full_step = min(full_step, process_delay)
 
+            # the time of the next event; like every other time that is
+            # computed by addition it is put back on the time grid
+            next_time = self.global_time + full_step
+            if self.global_time_precision is not None:
+                next_time = round(next_time, self.global_time_precision)
+
             # apply updates based on process times in self.front
             if full_step == math.inf:
                 # no process ran and none has an update in flight, so
@@ -1010,10 +1016,10 @@ class Engine:
                 self.global_time = end_time
                 self._advance_quiet_paths(quiet_paths)
 
-            elif self.global_time + full_step <= end_time:
+            elif next_time <= end_time:
                 # at least one process ran within the interval
                 # increase the time, apply updates, and continue
-                self.global_time += full_step
+                self.global_time = next_time
 
                 # advance all quiet processes to current time
                 for quiet in quiet_paths:
